@@ -185,6 +185,14 @@ func ruleC19R1(w *World, r *Report) {
 			want := pToGo(expr, x)
 			got := exprText(w.Fset, ret.Results[0])
 			if got != want {
+				// the generator may name a helper of its own for a special case (nodeSliceFirst(xs) for Xs[0]); such a
+				// helper counts as the canonical call whose table 'conditions -> term' it has
+				if cg := w.canonicalHelpers(got); cg == want {
+					r.ok(rule, construct, where, fmt.Sprintf("spec '%s' == %s (with %s read as its canonical equivalent)", spec, got, got))
+					continue
+				}
+			}
+			if got != want {
 				r.bad(rule, construct, where, fmt.Sprintf("method returns %s but the specification '%s' translates to %s", got, spec, want))
 				continue
 			}
